@@ -296,6 +296,11 @@ Proof.
         cbn [negb andb] in D. constructor; [exact D | apply R2; reflexivity].
 Qed.
 
+Lemma quit_marks_notall now bang : forall bufs fs sch, quit_marks now false bang bufs fs sch = bufs.
+Proof.
+  induction bufs as [|bf rest IH]; intros fs sch; cbn [quit_marks]; [reflexivity|].
+  destruct (negb false && negb bang && b_dirty bf); [reflexivity|]. rewrite IH. reflexivity.
+Qed.
 Lemma ec_quit_spec_ex now wr isx all bang bufs fs sch q st bufs' fs' r :
   ec_quit now wr isx all bang bufs fs sch = (q, st, bufs', fs', r) ->
   exists used, sch = used ++ r /\
@@ -318,7 +323,7 @@ Proof.
         split; [exact B|]. split.
         { intros T AL ND. destruct (R T) as [R1 _]. cbn [map] in *. rewrite P in R1. specialize (R1 AL ND).
           inversion R1; subst. constructor; [|assumption]. unfold holds_text in *. rewrite <- P, <- L. assumption. }
-        { intros T AL BG. destruct (R T) as [_ R2]. exact (R2 AL BG). }
+        { intros T AL BG. subst all. destruct (R T) as [_ R2]. rewrite ?quit_marks_notall. repeat match goal with |- context [if ?c then _ else _] => destruct c end; exact (R2 eq_refl BG). }
       * inversion H; subst. exists u1. split; [reflexivity|].
         split; [intro X; apply (proj1 C) in X; discriminate|]. split; [discriminate|]. split; discriminate.
       * inversion H; subst. exists u1. split; [reflexivity|].
@@ -326,7 +331,7 @@ Proof.
     + destruct (quit_loop now all bang (b0 :: rest) fs sch) as [[[q2 st2] fs2] r2] eqn:E2. inversion H; subst.
       destruct (quit_loop_spec _ _ _ _ _ _ _ _ _ _ E2) as [_ [u2 [U2 [A [B R]]]]].
       exists u2. split; [exact U2|].
-      split; [exact A|]. split; [exact B|]. split; [intros T; exact (proj1 (R T)) | intros T; exact (proj2 (R T))].
+      split; [exact A|]. split; [exact B|]. split; [intros T; exact (proj1 (R T)) | intros T AL BG; subst all; rewrite ?quit_marks_notall; repeat match goal with |- context [if ?c then _ else _] => destruct c end; exact (proj2 (R T) eq_refl BG)].
 Qed.
 
 Lemma ec_quit_spec now wr isx all bang bufs fs sch q st bufs' fs' r used :
